@@ -120,13 +120,14 @@ func (c *simConn) SetWriteDeadline(t time.Time) error { return nil }
 // NetFault is one transport / process fault of the plan, addressed by RPC
 // method and occurrence at the receiving node (stable under schedule changes).
 type NetFault struct {
-	Kind   string `json:"kind"`   // refuse | error-before | reset-before | reset-after | stall | kill-receiver-before | kill-receiver-after | kill-sender
+	Kind   string `json:"kind"`   // refuse | error-before | hang | reset-before | reset-after | stall | kill-receiver-before | kill-receiver-after | kill-sender
 	Method string `json:"method"` // e.g. RPCSendShard ("" = any)
 	Node   string `json:"node"`   // receiving node address ("" = any)
 	Nth    int    `json:"nth"`    // 1-based occurrence of (Method at Node)
 	Chunk  int    `json:"chunk"`  // RPCSendShard only: chunk index to match (-1 = any)
 	fired  bool
 	anyNode bool // Nth counts occurrences of Method over all nodes
+	sticky  bool // stays armed after firing (every matching request is hit)
 }
 
 type simNode struct {
@@ -274,7 +275,9 @@ func (n *SimNet) matchFault(sn *simNode, method string, arg any, phase string) *
 		if after != (phase == "after") {
 			continue
 		}
-		f.fired = true
+		if !f.sticky {
+			f.fired = true
+		}
 		n.stats["fault:"+f.Kind]++
 		return f
 	}
@@ -319,6 +322,10 @@ func (n *SimNet) serve(sn *simNode, conn *simConn) {
 					return
 				case "stall":
 					sim.Sleep(time.Duration(n.stallSec) * time.Second)
+				case "hang":
+					// the server never answers and never executes the request (a hung process)
+					sim.Sleep(1000 * time.Hour)
+					return
 				case "kill-receiver-before":
 					n.kill(sn.addr)
 					return
